@@ -39,12 +39,14 @@ def _world(repo):
         for m in contract_modules():
             allc.extend(P.load_contracts(w, m))
         w.lemmas = {c.target: c for c in allc if c.kind == "lemma"}
+        w.local_stubs = {c.target: c for c in allc if c.kind != "lemma" and c.modular and c.local_only}
         for c in allc:
-            if c.kind != "lemma" and c.modular:
+            if c.kind != "lemma" and c.modular and not c.local_only:
                 if c.target in w.contracts:
                     # several contracts on one function (different arities): first modular wins
                     continue
                 w.contracts[c.target] = c
+        w.base_contracts = dict(w.contracts)
         _W[repo] = (w, allc)
     return _W[repo]
 
